@@ -194,11 +194,13 @@ theorem step_conserves (s s' : State) (e : Ev) (h : step s e = .ok s') :
             · cases h
           · split at h
             · cases h
-            · cases h
-              rename_i hc
-              simp only [ne_eq, Decidable.not_not] at hc
-              simp only [V, sumProcs_del _ _ _ hx]
-              omega
+            · rename_i hc
+              split at h
+              · cases h
+              · cases h
+                simp only [ne_eq, Decidable.not_not] at hc
+                simp only [V, sumProcs_del _ _ _ hx]
+                omega
 
 /-- Every accepted event sequence conserves the token value: no token is created or lost. -/
 theorem conserved (s s' : State) (es : List Ev) (h : run s es = .ok s') :
